@@ -431,7 +431,7 @@ def generator_rules(rep):
             fm = as_fmt(t) if t is not None else None
             if fm is None or fm.template is None:
                 return lv[0], None, None
-            return lv[0], fm, strip_block(tmpl_any(fm.template, f"HandleLift {cls}"))
+            return lv[0], fm, (tmpl_any(fm.template, f"HandleLift {cls}"))
 
         def decl_pushes(node):
             return [m for m in synq.method_calls(node, "push") if render(m["recv"]).endswith("handle_decls")]
@@ -499,7 +499,7 @@ def generator_rules(rep):
             a = em.arm(v)
             ps = em.pushed(a.body)
             fm = as_fmt(ps[0]) if len(ps) == 1 else None
-            e = strip_block(tmpl_any(fm.template, v)) if fm is not None and fm.template else None
+            e = (tmpl_any(fm.template, v)) if fm is not None and fm.template else None
             nm = call_name(e) if e is not None else None
             ok = nm is not None and bool(re.fullmatch(r"__h_\w+__::" + re.escape(ctor), nm)) and \
                 len(e["args"]) >= 1 and operand_hole(em, a.body, fm, e["args"][0]) and \
@@ -576,11 +576,9 @@ def generator_rules(rep):
         prev_at = None
         cond_unbalanced = []
         last_push = None
-        min_after = None
         for i, s in enumerate(st):
             if i == di:
                 depth_at_drain = depth
-                min_after = depth
                 continue
             for node, kind, payload in src_pushes(s):
                 top = s.get("k") == "expr_stmt" and s["e"] is node
@@ -594,10 +592,8 @@ def generator_rules(rep):
                 elif kind == "var" and payload in prev and top:
                     prev_at = (i, depth)
                     last_push = None
-                else:
-                    last_push = None if top else last_push
-                if min_after is not None:
-                    min_after = min(min_after, depth) if not (top and kind == "lit" and i == len(st) - 1) else min_after
+                elif top:
+                    last_push = None
         rep.ob("R7.2", "CallInterface: handle_decls are emitted inside the block opened for this call",
                depth_at_drain is not None and depth_at_drain >= 1,
                f"brace depth of the literal text pushed before the drain loop: {depth_at_drain}", f.loc(loop))
@@ -676,10 +672,6 @@ def tmpl_any(text, what):
     if len(st) != 1 or st[0].get("k") != "expr_stmt":
         raise AnchorMissing(f"{what}: template is not a single expression")
     return st[0]["e"]
-
-
-def strip_block(e):
-    return e
 
 
 def operand_hole(em, scope, fm, e, deep=False):
@@ -1079,7 +1071,7 @@ def name_rules(rep, dtor_fn, where4, ge):
 
 
 # ============================================================================ runtime (R7.5 + Option<T> rep)
-def runtime_rules(rep, c, cfg, gen_sentinel):
+def runtime_rules(rep, c, cfg):
     tag = f"[{cfg}]"
     is_async = c.method("RawStreamReader", "take_handle", required=False) is not None
     if cfg == "full" and not is_async:
@@ -1278,7 +1270,7 @@ def run(rep, tier):
                      "native (x86_64) build of the runtime: extern_wasm! built-ins appear as shim functions"],
     )
     rep.guard("R7.1", "generator arms", lambda: generator_rules(rep))
-    sent = rep.guard("R7.3", "Resource<T> template", lambda: resource_template_rules(rep))
+    rep.guard("R7.3", "Resource<T> template", lambda: resource_template_rules(rep))
     rep.guard("R7.3", "wrapper templates", lambda: wrapper_rules(rep))
     res = rep.guard("R7.4", "exported resource template", lambda: exported_rules(rep))
     if res is not None:
@@ -1286,7 +1278,7 @@ def run(rep, tier):
     else:
         rep.ob("R7.6", "name templates", False, "not evaluated: the exported resource template could not be analysed", IF)
     for cfg in configs(tier):
-        rep.guard("R7.5", f"config:{cfg}", lambda cfg=cfg: runtime_rules(rep, rt(cfg), cfg, sent))
+        rep.guard("R7.5", f"config:{cfg}", lambda cfg=cfg: runtime_rules(rep, rt(cfg), cfg))
     rep.guard("R7.5", "error-context link name", lambda: errctx_link(rep))
     from .witness import run_witness
     rep.guard("R7.5", "witness", lambda: run_witness(rep, "C07", "R7.5"))
